@@ -57,7 +57,18 @@ def newAttrRec (F : Facts15) (h : Heap) (srcAttrs : Nat) (kw : Kw) : AttrRec :=
     | none => (some (applyCol [] (colWrites kw)), none)
     | some (holder, d) =>
       if F.colCopy == .deep then (some (applyCol d (colWrites kw)), none) else (none, some holder)
-  { own := normKw kw ++ nilW, parent := some srcAttrs, variants := none, dca := none, dcaa := none,
+  -- the `pattern` property setter also stores the compiled regex (`_pattern_re`), a second, hidden attribute
+  let reW : Kw := match kwLookup (normKw kw) "pattern" with
+    | some v =>
+      if v == .none then []
+      else match F.patRule with
+        | .always => [("_pattern_re", v)]
+        | .onlyWhenUnset =>
+          (match attrAt h srcAttrs "_pattern_re" with
+           | some old => if old == .none then [("_pattern_re", v)] else []
+           | none => [("_pattern_re", v)])
+    | none => []
+  { own := reW ++ normKw kw ++ nilW, parent := some srcAttrs, variants := none, dca := none, dcaa := none,
     colArgs := col.1, colRef := col.2 }
 
 /-- with a shallow copy, the keyword loop's writes land in the dict of the class derived from -/
